@@ -38,6 +38,10 @@ const (
 	kULevel
 	kUPort
 	kUStr
+	// DefNaN: a float64 whose InitDefaults sets NaN
+	kDefNaN
+	// Regexp: regexp.Regexp, only ever held behind a pointer (*regexp.Regexp)
+	kRegexp
 	kStruct
 	kPtr
 	kSlice
@@ -56,8 +60,10 @@ func (k kind) base() kind {
 		return kInt
 	case kUint8, kUint32, kUint64:
 		return kUint
-	case kFloat32:
+	case kFloat32, kDefNaN:
 		return kFloat
+	case kRegexp:
+		return kString
 	case kULevel:
 		return kLevel
 	case kUPort:
@@ -74,12 +80,12 @@ func (k kind) unpacker() bool { return k == kUNum || k == kULevel || k == kUPort
 var kindNames = map[kind]string{kInt: "int", kInt64: "int64", kUint: "uint", kFloat: "float64", kString: "string", kDur: "duration",
 	kPort: "Port", kLevel: "Level", kDefLevel: "DefLevel", kDefBad: "DefBad",
 	kInt8: "int8", kInt32: "int32", kUint8: "uint8", kUint32: "uint32", kUint64: "uint64", kFloat32: "float32",
-	kUNum: "UNum", kULevel: "ULevel", kUPort: "UPort", kUStr: "UStr", kStruct: "struct", kPtr: "ptr", kSlice: "slice", kArray: "array", kMap: "map", kIface: "iface"}
+	kUNum: "UNum", kULevel: "ULevel", kUPort: "UPort", kUStr: "UStr", kDefNaN: "DefNaN", kRegexp: "Regexp", kStruct: "struct", kPtr: "ptr", kSlice: "slice", kArray: "array", kMap: "map", kIface: "iface"}
 
 var scalarType = map[kind]reflect.Type{kInt: tInt, kInt64: tInt64, kUint: tUint, kFloat: tFloat64, kString: tString, kDur: tDuration,
 	kPort: tPort, kLevel: tLevel, kDefLevel: tDefLevel, kDefBad: tDefBad,
 	kInt8: tInt8, kInt32: tInt32, kUint8: tUint8, kUint32: tUint32, kUint64: tUint64, kFloat32: tFloat32,
-	kUNum: tUNum, kULevel: tULevel, kUPort: tUPort, kUStr: tUStr}
+	kUNum: tUNum, kULevel: tULevel, kUPort: tUPort, kUStr: tUStr, kDefNaN: tDefNaN, kRegexp: tRegexp}
 
 // altTag is the second struct tag name validators are declared under; it is in
 // force when Unpack is given ValidatorTag(altTag).
@@ -92,6 +98,13 @@ type tnode struct {
 	fields []*tfield // struct
 	lib    string    // name of the hand-written struct type, "" for StructOf
 	rt     reflect.Type
+	// prt: slices, arrays and maps held behind a pointer (field type *[]T ...):
+	// the pointer type; rt stays the type of the collection itself
+	prt reflect.Type
+	// pp: pointer to scalar held behind a second pointer (**T); rt is **T
+	pp bool
+	// inlineMap: generated struct whose only field is an inline map
+	inlineMap bool
 	// topColl: wrapper around the one slice / map that is itself the Unpack target
 	topColl bool
 	// tag: name of the struct tag the vals of the fields below were read from
@@ -118,6 +131,14 @@ func (f *tfield) has(name string) bool {
 		}
 	}
 	return false
+}
+
+// fieldType is the Go type of a struct field holding the node.
+func (t *tnode) fieldType() reflect.Type {
+	if t.prt != nil {
+		return t.prt
+	}
+	return t.rt
 }
 
 // st returns the struct node behind a struct, pointer-to-struct or interface
@@ -252,7 +273,7 @@ func (g *tgen) name() (goName, cfg string) {
 }
 
 func (g *tgen) scalarKind() kind {
-	switch x := g.r.Intn(34); {
+	switch x := g.r.Intn(35); {
 	case x < 5:
 		return kInt
 	case x < 7:
@@ -291,8 +312,10 @@ func (g *tgen) scalarKind() kind {
 		return kULevel
 	case x < 33:
 		return kUPort
+	case x < 34:
+		return kUStr
 	}
-	return kUStr
+	return kDefNaN
 }
 
 func scalarNode(k kind) *tnode { return &tnode{k: k, rt: scalarType[k]} }
@@ -476,6 +499,22 @@ func (g *tgen) structNode(depth int) *tnode {
 	if depth > 0 && r.Intn(100) < 40 {
 		return fromLib(libStructs[r.Intn(len(libStructs))])
 	}
+	if depth > 0 && r.Intn(100) < 8 {
+		// a struct whose only field is an inline map (it receives every key of
+		// the struct's configuration; with sibling fields it would receive
+		// theirs as well - C06's matter), with or without validators of its own
+		f := &tfield{inline: true}
+		f.goName, _ = g.name()
+		e := scalarNode(g.scalarKind())
+		f.t = &tnode{k: kMap, elem: e, rt: reflect.MapOf(tString, e.rt)}
+		f.vals = g.collVals(35, 35)
+		if g.twoTags {
+			f.alt = g.altVals(f)
+		}
+		n := &tnode{k: kStruct, fields: []*tfield{f}, inlineMap: true}
+		n.rt = buildStruct(n)
+		return n
+	}
 	nf := 1 + r.Intn(3)
 	if depth == 0 {
 		nf = 2 + r.Intn(4)
@@ -537,7 +576,7 @@ func buildStructAs(n *tnode, valsName, altName, extra string) reflect.Type {
 			first, second = second, first
 		}
 		full += first + second + extra
-		sf[i] = reflect.StructField{Name: f.goName, Type: f.t.rt, Tag: reflect.StructTag(full)}
+		sf[i] = reflect.StructField{Name: f.goName, Type: f.t.fieldType(), Tag: reflect.StructTag(full)}
 	}
 	return reflect.StructOf(sf)
 }
@@ -561,10 +600,17 @@ func (g *tgen) fieldOf(depth, x int) *tfield {
 		k := g.scalarKind()
 		f.t = scalarNode(k)
 		f.vals = g.scalarVals(k)
-	case x < 42: // pointer to scalar
+	case x < 42: // pointer to scalar; one in six through a second pointer; *regexp.Regexp
 		k := g.scalarKind()
+		if r.Intn(10) == 0 {
+			k = kRegexp
+		}
 		e := scalarNode(k)
 		f.t = &tnode{k: kPtr, elem: e, rt: reflect.PtrTo(e.rt)}
+		if k != kRegexp && r.Intn(6) == 0 {
+			f.t.pp = true
+			f.t.rt = reflect.PtrTo(f.t.rt)
+		}
 		f.vals = g.scalarVals(k)
 	case x < 48: // slice of scalars
 		e := scalarNode(g.scalarKind())
@@ -575,15 +621,18 @@ func (g *tgen) fieldOf(depth, x int) *tfield {
 		}
 		f.vals = g.collVals(20, 20)
 		f.mode = g.mode(50)
+		g.behindPointer(f.t, 5)
 	case x < 51: // array of scalars
 		e := scalarNode(g.scalarKind())
 		n := 1 + r.Intn(3)
 		f.t = &tnode{k: kArray, elem: e, alen: n, rt: reflect.ArrayOf(n, e.rt)}
 		f.vals = g.collVals(2, 2)
+		g.behindPointer(f.t, 5)
 	case x < 56: // map of scalars
 		e := scalarNode(g.scalarKind())
 		f.t = &tnode{k: kMap, elem: e, rt: reflect.MapOf(tString, e.rt)}
 		f.vals = g.collVals(20, 20)
+		g.behindPointer(f.t, 4)
 	case x < 59: // interface{}
 		f.t = &tnode{k: kIface, rt: tIface}
 		switch r.Intn(3) {
@@ -632,6 +681,7 @@ func (g *tgen) fieldOf(depth, x int) *tfield {
 		f.t = &tnode{k: kSlice, elem: e, rt: reflect.SliceOf(e.rt)}
 		f.vals = g.collVals(15, 15)
 		f.mode = g.mode(50)
+		g.behindPointer(f.t, 6)
 	case x < 93: // array of structs
 		s := g.structNode(depth + 1)
 		n := 1 + r.Intn(2)
@@ -651,6 +701,13 @@ func (g *tgen) fieldOf(depth, x int) *tfield {
 		f.alt = g.altVals(f)
 	}
 	return f
+}
+
+// behindPointer makes one collection field in `every` a pointer to the collection.
+func (g *tgen) behindPointer(t *tnode, every int) {
+	if g.r.Intn(every) == 0 {
+		t.prt = reflect.PtrTo(t.rt)
+	}
 }
 
 // altVals draws the validators a field declares under altTag: independent of
@@ -706,6 +763,7 @@ func genTopColl(r *rand.Rand) *tnode {
 	x := []int{42, 44, 46, 52, 84, 85, 86, 87, 88, 95, 97}[r.Intn(11)]
 	f := g.fieldOf(0, x)
 	f.cfg, f.vals, f.alt, f.mode = "w", nil, nil, ""
+	f.t.prt = nil // the target itself is the slice / map
 	n := &tnode{k: kStruct, fields: []*tfield{f}, topColl: true, tag: "validate"}
 	n.rt = buildStruct(n)
 	return n
@@ -769,6 +827,9 @@ func twinType(top *tnode, inForce, other string, onlyInForce bool) (*tnode, twin
 			c.rt = buildStructAs(&c, inForce, other, extra)
 		case kPtr:
 			c.rt = reflect.PtrTo(c.elem.rt)
+			if t.pp {
+				c.rt = reflect.PtrTo(c.rt)
+			}
 		case kSlice:
 			if t.lib == "" {
 				c.rt = reflect.SliceOf(c.elem.rt)
@@ -777,6 +838,9 @@ func twinType(top *tnode, inForce, other string, onlyInForce bool) (*tnode, twin
 			c.rt = reflect.ArrayOf(t.alen, c.elem.rt)
 		case kMap:
 			c.rt = reflect.MapOf(tString, c.elem.rt)
+		}
+		if t.prt != nil {
+			c.prt = reflect.PtrTo(c.rt)
 		}
 		return &c
 	}
